@@ -138,6 +138,10 @@ Hypothesis ord_perm : forall l, Permutation (ord l) l.
 
 Lemma ord_In : forall l x, In x (ord l) <-> In x l.
 Proof. intros. split; apply Permutation_in; [apply ord_perm|symmetry; apply ord_perm]. Qed.
+Lemma ord_In1 : forall l x, In x (ord l) -> In x l.
+Proof. intros l x. apply ord_In. Qed.
+Lemma ord_In2 : forall l x, In x l -> In x (ord l).
+Proof. intros l x. apply ord_In. Qed.
 Lemma ord_NoDup : forall l, NoDup l -> NoDup (ord l).
 Proof. intros. eapply Permutation_NoDup; [symmetry; apply ord_perm|assumption]. Qed.
 Lemma ord_nil : ord [] = [].
@@ -188,7 +192,7 @@ Lemma acc_spop : acc (sa_spop ord).
 Proof.
   intros [s g] r s' I H. unfold sa_spop, bind, lift, fire, ret in H. cbn [fst snd] in H, I.
   destruct (ord s) as [|x t] eqn:E; inv H; cbn [fst]; [auto|].
-  assert (Hin : In x s) by (apply ord_In; rewrite E; left; reflexivity).
+  assert (Hin : In x s) by (apply ord_In1; rewrite E; left; reflexivity).
   split; [apply set_discard_NoDup; assumption|]. intro z. apply bal_discard; [assumption|].
   apply mem_In. assumption.
 Qed.
@@ -239,3 +243,218 @@ Proof.
   intros op s g r s' g' I H. destruct (acc_set_op op (s, g) _ _ I H) as [I' B].
   split; [exact I'|]. intro x. specialize (B x). unfold bal in B. cbn [fst snd] in B. lia.
 Qed.
+
+(* ====================================================================================== *)
+(* 2. result / exception / contents = the builtin set                                       *)
+(* ====================================================================================== *)
+Lemma run_sadd : forall x s g, exists g', sa_sadd x (s, g) = (Ok tt, (set_add x s, g')).
+Proof.
+  intros. unfold sa_sadd, bind, get, b_set, lift. cbn [fst snd].
+  destruct (mem x s); unfold fire; cbn [fst snd]; eexists; reflexivity.
+Qed.
+
+Lemma run_sdiscard : forall x s g, exists g', sa_sdiscard x (s, g) = (Ok tt, (set_discard x s, g')).
+Proof.
+  intros. unfold sa_sdiscard, bind, get, b_set, lift. cbn [fst snd].
+  destruct (mem x s); unfold fire, ret; cbn [fst snd]; eexists; reflexivity.
+Qed.
+
+Lemma run_sremove : forall x s g, mem x s = true ->
+  exists g', sa_sremove x (s, g) = (Ok tt, (set_discard x s, g')).
+Proof.
+  intros x s g E. unfold sa_sremove, bind, get, lift. cbn [fst snd]. rewrite E.
+  unfold fire. cbn [fst snd]. rewrite E. eexists; reflexivity.
+Qed.
+
+Lemma sadd_loop : forall xs s g,
+  exists g', for_each xs sa_sadd (s, g) = (Ok tt, (set_union s xs, g')).
+Proof.
+  induction xs as [|x xs IH]; intros; cbn [for_each]; [eexists; reflexivity|].
+  destruct (run_sadd x s g) as [g1 E]. unfold bind. rewrite E. rewrite set_union_cons. apply IH.
+Qed.
+
+Lemma sdiscard_loop : forall xs s g,
+  exists g', for_each xs sa_sdiscard (s, g) = (Ok tt, (set_diff s xs, g')).
+Proof.
+  induction xs as [|x xs IH]; intros; cbn [for_each].
+  - rewrite set_diff_nil. eexists; reflexivity.
+  - destruct (run_sdiscard x s g) as [g1 E]. unfold bind. rewrite E. rewrite <- set_diff_cons. apply IH.
+Qed.
+
+Lemma sremove_loop : forall xs s g, NoDup xs -> (forall x, In x xs -> In x s) ->
+  exists g', for_each xs sa_sremove (s, g) = (Ok tt, (set_diff s xs, g')).
+Proof.
+  induction xs as [|x xs IH]; intros s g N Hin; cbn [for_each].
+  - rewrite set_diff_nil. eexists; reflexivity.
+  - inv N. destruct (run_sremove x s g) as [g1 E]; [apply mem_In, Hin; left; reflexivity|].
+    unfold bind. rewrite E. rewrite <- set_diff_cons. apply IH; [assumption|].
+    intros y Hy. apply set_discard_In. split; [apply Hin; right; assumption|].
+    intro. subst. contradiction.
+Qed.
+
+(* iterating the collection itself while re-adding its own members: the size never changes *)
+Lemma iter_self_add : forall xs s g, (forall x, In x xs -> In x s) ->
+  exists g', iter_self (length s) xs sa_sadd (s, g) = (Ok tt, (s, g')).
+Proof.
+  induction xs as [|x xs IH]; intros s g Hin; cbn [iter_self]; unfold bind at 1, get at 1; cbn [fst snd];
+    rewrite Nat.eqb_refl; cbn [negb].
+  - eexists; reflexivity.
+  - destruct (run_sadd x s g) as [g1 E]. unfold bind. rewrite E.
+    assert (Es : set_add x s = s).
+    { unfold set_add. replace (mem x s) with true; [reflexivity|]. symmetry. apply mem_In, Hin. left; reflexivity. }
+    rewrite Es. apply IH. intros; apply Hin; right; assumption.
+Qed.
+
+(* the builtin's contents after a bulk operation *)
+Definition bulk_res (s : list item) (a : sarg) (f : list item -> list item -> list item) :
+  res unit * list item :=
+  match arg_items ord s a with
+  | None => (Raise TypeError, s)
+  | Some o => (Ok tt, f s o)
+  end.
+
+Lemma supdate_eq : forall a s g,
+  exists g', sa_supdate ord a (s, g) = (fst (bulk_res s a set_union), (snd (bulk_res s a set_union), g')).
+Proof.
+  intros a s g. unfold sa_supdate, sa_iter, bulk_res, bind at 1, get at 1. cbn [fst snd].
+  destruct a as [v|v| |]; cbn [arg_items fst snd].
+  - apply sadd_loop.
+  - apply sadd_loop.
+  - destruct (iter_self_add (ord s) s g) as [g' E]; [intros; apply ord_In1; assumption|].
+    exists g'. rewrite E. rewrite set_union_members; [reflexivity|]. intros; apply ord_In1; assumption.
+  - eexists; reflexivity.
+Qed.
+
+Lemma sdiffupdate_eq : forall a s g, (a = ASelf -> s = []) ->
+  exists g', sa_sdiffupdate ord a (s, g) = (fst (bulk_res s a set_diff), (snd (bulk_res s a set_diff), g')).
+Proof.
+  intros a s g Hg. unfold sa_sdiffupdate, sa_iter, bulk_res, bind at 1, get at 1. cbn [fst snd].
+  destruct a as [v|v| |]; cbn [arg_items fst snd].
+  - apply sdiscard_loop.
+  - apply sdiscard_loop.
+  - rewrite (Hg eq_refl). rewrite ord_nil. cbn. eexists; reflexivity.
+  - eexists; reflexivity.
+Qed.
+
+(* intersection_update / symmetric_difference_update: the remove / add loops reach [want] *)
+Lemma swant_eq : forall f a s g, NoDup s ->
+  (forall o, NoDup (f s o)) ->
+  exists s1 g', sa_swant ord f a (s, g) = (fst (bulk_res s a f), (s1, g')) /\
+                Permutation s1 (snd (bulk_res s a f)).
+Proof.
+  intros f a s g N Nf. unfold sa_swant, bulk_res, bind at 1, get at 1. cbn [fst snd].
+  destruct (arg_items ord s a) as [o|]; cbn [fst snd]; [|do 2 eexists; split; [reflexivity|reflexivity]].
+  set (want := f s o). set (rm := set_diff s want). set (ad := set_diff want s).
+  destruct (sremove_loop (ord rm) s g) as [g1 E1].
+  { apply ord_NoDup, NoDup_filter. assumption. }
+  { intros x Hx. apply ord_In1 in Hx. apply set_diff_In in Hx. tauto. }
+  destruct (sadd_loop (ord ad) (set_diff s (ord rm)) g1) as [g2 E2].
+  unfold bind. rewrite E1, E2. do 2 eexists. split; [reflexivity|].
+  apply NoDup_Permutation.
+  - apply set_union_NoDup, NoDup_filter. assumption.
+  - apply Nf.
+  - intro y. rewrite set_union_In, set_diff_In, !ord_In. unfold rm, ad. rewrite !set_diff_In.
+    fold want. destruct (in_dec Z.eq_dec y s); destruct (in_dec Z.eq_dec y want); tauto.
+Qed.
+
+Lemma set_inter_NoDup : forall s o, NoDup s -> NoDup (set_inter s o).
+Proof. intros. apply NoDup_filter. assumption. Qed.
+
+Definition sagrees (r : res retv * st (list item)) (p : res retv * list item) : Prop :=
+  fst r = fst p /\ Permutation (fst (snd r)) (snd p).
+
+Lemma bulk_finish : forall (m : SM unit) a f rv s g s1 g',
+  m (s, g) = (fst (bulk_res s a f), (s1, g')) -> Permutation s1 (snd (bulk_res s a f)) ->
+  sagrees ((m ;;; ret rv) (s, g))
+          (match arg_items ord s a with None => (Raise TypeError, s) | Some o => (Ok rv, f s o) end).
+Proof.
+  intros m a f rv s g s1 g' E P. unfold sagrees, bind. rewrite E. unfold bulk_res in *.
+  destruct (arg_items ord s a); cbn [fst snd] in *; auto.
+Qed.
+
+Theorem set_op_eq_python : forall op s g, NoDup s -> set_eq_guard s op = true ->
+  sagrees (sa_set_op ord op (s, g)) (py_set_op ord s op).
+Proof.
+  intros op s g N Hg.
+  assert (Hself : forall a, (op = SDiffUpdate a \/ op = SIsub a) -> a = ASelf -> s = []).
+  { intros a [->| ->] ->; cbn [set_eq_guard] in Hg; apply Nat.eqb_eq in Hg;
+      destruct s; [reflexivity|discriminate|reflexivity|discriminate]. }
+  destruct op; cbn [sa_set_op py_set_op]; unfold sa_inplace;
+    try match goal with
+        | |- context [if is_setlike ?a then _ else _] =>
+            destruct (is_setlike a) eqn:Es; [|unfold sagrees, ret; cbn; auto]
+        end.
+  - destruct (run_sadd x s g) as [g' E]. unfold sagrees, bind. rewrite E. cbn. auto.
+  - destruct (run_sdiscard x s g) as [g' E]. unfold sagrees, bind. rewrite E. cbn. auto.
+  - unfold sagrees, sa_sremove, bind, get, lift. cbn [fst snd].
+    destruct (mem x s) eqn:E; unfold fire, ret; cbn [fst snd]; rewrite E; cbn; auto.
+  - unfold sagrees, sa_spop, bind, lift, fire, ret. cbn [fst snd].
+    destruct (ord s); cbn; auto.
+  - assert (Ec : exists g', sa_sclear ord (s, g) = (Ok tt, ([], g'))).
+    { unfold sa_sclear, bind, get. cbn [fst snd].
+      destruct (sremove_loop (ord s) s g) as [g' E]; [apply ord_NoDup; assumption|apply ord_In1|].
+      exists g'. rewrite E. do 2 f_equal. unfold set_diff.
+      assert (F : forall l, (forall y, In y l -> In y (ord s)) -> filter (fun y => negb (mem y (ord s))) l = []).
+      { induction l as [|y l IH]; intro Hl; [reflexivity|]. cbn [filter].
+        replace (mem y (ord s)) with true; [cbn [negb]; apply IH; intros; apply Hl; right; assumption|].
+        symmetry. apply mem_In, Hl. left; reflexivity. }
+      apply F. intros y Hy. apply ord_In2. assumption. }
+    destruct Ec as [g' E]. unfold sagrees, bind. rewrite E. cbn. auto.
+  - destruct (supdate_eq a s g) as [g' E]. eapply bulk_finish; [exact E|reflexivity].
+  - destruct (sdiffupdate_eq a s g (Hself a (or_introl eq_refl))) as [g' E].
+    eapply bulk_finish; [exact E|reflexivity].
+  - destruct (swant_eq set_inter a s g N (fun o => set_inter_NoDup s o N)) as [s1 [g' [E P]]].
+    eapply bulk_finish; eassumption.
+  - destruct (swant_eq set_symdiff a s g N (fun o => set_symdiff_NoDup s o N)) as [s1 [g' [E P]]].
+    eapply bulk_finish; eassumption.
+  - destruct (supdate_eq a s g) as [g' E]. eapply bulk_finish; [exact E|reflexivity].
+  - destruct (sdiffupdate_eq a s g (Hself a (or_intror eq_refl))) as [g' E].
+    eapply bulk_finish; [exact E|reflexivity].
+  - destruct (swant_eq set_inter a s g N (fun o => set_inter_NoDup s o N)) as [s1 [g' [E P]]].
+    eapply bulk_finish; eassumption.
+  - destruct (swant_eq set_symdiff a s g N (fun o => set_symdiff_NoDup s o N)) as [s1 [g' [E P]]].
+    eapply bulk_finish; eassumption.
+Qed.
+
+(* ====================================================================================== *)
+(* 3. histories.  Which member set.pop() takes is the builtin's choice, so a history of the
+      instrumented set is compared with the builtin step by step, from the state reached.   *)
+(* ====================================================================================== *)
+Fixpoint sa_set_trace (ops : list sop) (s : st (list item)) :
+  list (list item * sop * res retv * list item) :=
+  match ops with
+  | [] => []
+  | op :: r => match sa_set_op ord op s with
+               | (x, s') => (fst s, op, x, fst s') :: sa_set_trace r s'
+               end
+  end.
+
+Definition set_step_ok (t : list item * sop * res retv * list item) : Prop :=
+  let '(s0, op, x, s1) := t in
+  NoDup s0 /\ NoDup s1 /\
+  (set_eq_guard s0 op = true ->
+   x = fst (py_set_op ord s0 op) /\ Permutation s1 (snd (py_set_op ord s0 op))).
+
+Theorem set_history_eq_python : forall ops s g, NoDup s ->
+  Forall set_step_ok (sa_set_trace ops (s, g)).
+Proof.
+  induction ops as [|op r IH]; intros s g N; cbn [sa_set_trace]; [constructor|].
+  destruct (sa_set_op ord op (s, g)) as [x [s1 g1]] eqn:E.
+  destruct (set_op_accounted op s g x s1 g1 N E) as [N1 _].
+  constructor; [|apply IH; assumption].
+  cbn [set_step_ok fst]. repeat split; try assumption;
+    destruct (set_op_eq_python op s g N H) as [A B]; rewrite E in A, B; assumption.
+Qed.
+
+Theorem set_history_accounted : forall ops s g, NoDup s ->
+  let '(_, (s', g')) := sa_set_run ord ops (s, g) in
+  NoDup s' /\ forall x, countZ x s' - countZ x s = net x g' - net x g.
+Proof.
+  induction ops as [|op r IH]; intros s g N; cbn [sa_set_run]; [split; [assumption|intro; lia]|].
+  destruct (sa_set_op ord op (s, g)) as [rv [s1 g1]] eqn:E.
+  destruct (set_op_accounted op s g rv s1 g1 N E) as [N1 A].
+  specialize (IH s1 g1 N1). destruct (sa_set_run ord r (s1, g1)) as [xs [s2 g2]].
+  destruct IH as [N2 B]. split; [assumption|]. intro x. specialize (A x). specialize (B x). lia.
+Qed.
+
+End Ord.
